@@ -126,3 +126,34 @@ Proof.
   assert (Hw : r_bk (with_work r old) = r_bk r) by (unfold with_work; destruct (r_reason old =? 1); reflexivity).
   destruct (keep_bk_version (with_work r old) old) as [A B]. rewrite Hw in A. split; [exact A|]. intros o t' H. injection H as <- _. exact B.
 Qed.
+
+(* ---- UpdateBucketsIfNeeded's background reload racing with OnBucketVersionNotMatch ---- *)
+(* what OnBucketVersionNotMatch does to the entry it finds *)
+Definition bvnm_e (ver : N) (keys : list bytes) (x : region) : region :=
+  match r_bk x with
+  | Some (bv, _) => if bv <? ver then set_bk (Some (ver, keys)) x else x
+  | None => set_bk (Some (ver, keys)) x
+  end.
+Lemma bvnm_e_version ver keys x : bk_ver (r_bk (bvnm_e ver keys x)) = N.max (bk_ver (r_bk x)) ver.
+Proof.
+  unfold bvnm_e. destruct (r_bk x) as [[bv ks]|] eqn:E; cbn [bk_ver].
+  - destruct (bv <? ver) eqn:El; [apply N.ltb_lt in El|apply N.ltb_ge in El]; cbn [set_bk r_bk bk_ver]; [|rewrite E; cbn [bk_ver]]; lia.
+  - cbn [set_bk r_bk bk_ver]. lia.
+Qed.
+Lemma keep_bk_version_max r old : bk_ver (r_bk (keep_bk r old)) = N.max (bk_ver (r_bk r)) (bk_ver (r_bk old)).
+Proof.
+  unfold keep_bk. cbn [r_bk]. destruct (r_bk r) as [[v ks]|]; destruct (r_bk old) as [[ov oks]|]; cbn [bk_ver]; try lia.
+  destruct (v <? ov) eqn:E; cbn [bk_ver]; [apply N.ltb_lt in E|apply N.ltb_ge in E]; lia.
+Qed.
+(* both orders end with the same bucket version, the maximum of the three versions involved: nothing is lost or rolled back *)
+Lemma bucket_race_confluent r old ver keys :
+  bk_ver (r_bk (keep_bk r (bvnm_e ver keys old))) = N.max (N.max (bk_ver (r_bk r)) (bk_ver (r_bk old))) ver /\
+  bk_ver (r_bk (bvnm_e ver keys (keep_bk r old))) = N.max (N.max (bk_ver (r_bk r)) (bk_ver (r_bk old))) ver.
+Proof. rewrite keep_bk_version_max, !bvnm_e_version, keep_bk_version_max. lia. Qed.
+(* OnBucketVersionNotMatch is the entry-level function applied to the entry it finds *)
+Lemma on_bvnm_entry c v ver keys r : get_by_verid c v = Some r ->
+  on_bucket_version_not_match c v ver keys = (if match r_bk r with Some (bv, _) => bv <? ver | None => true end then upd_entry c r (set_bk (Some (ver, keys))) else c) /\
+  bvnm_e ver keys r = (if match r_bk r with Some (bv, _) => bv <? ver | None => true end then set_bk (Some (ver, keys)) r else r).
+Proof.
+  intros H. unfold on_bucket_version_not_match, bvnm_e. rewrite H. destruct (r_bk r) as [[bv ks]|]; [destruct (bv <? ver)|]; split; reflexivity.
+Qed.
